@@ -2,6 +2,7 @@ package main
 
 import (
 	"context"
+	"errors"
 	"fmt"
 	"math/rand"
 	"os"
@@ -11,6 +12,7 @@ import (
 
 	f_log "github.com/transparency-dev/formats/log"
 	"github.com/transparency-dev/witness/internal/feeder"
+	"github.com/transparency-dev/witness/internal/persistence/inmemory"
 	"github.com/transparency-dev/witness/omniwitness"
 )
 
@@ -28,6 +30,7 @@ type scriptedWitness struct {
 	latest  []byte // stub mode: fixed latest checkpoint (nil = none)
 	ret     []byte // stub mode: what Update returns
 	real    feeder.Witness
+	ctl     *lspCtl // fault plan of the real witness's storage (nil: no wrapper)
 	logID   string
 	fetched []byte
 	br      *branch
@@ -60,14 +63,24 @@ func (w *scriptedWitness) GetLatestCheckpoint(ctx context.Context, logID string)
 	var b []byte
 	var err error
 	if w.real != nil {
+		if w.failing('r') && w.ctl != nil {
+			// the fault is BELOW the adapter: the witness's own storage read fails in this attempt
+			w.ctl.setFaults("g")
+		}
 		b, err = w.real.GetLatestCheckpoint(ctx, logID)
+		if w.ctl != nil {
+			w.ctl.setFaults("")
+		}
 	} else if w.latest == nil {
 		err = os.ErrNotExist
 	} else {
 		b = w.latest
 	}
 	if err != nil {
-		w.cur[0] = "-"
+		w.cur[0] = "!"
+		if errors.Is(err, os.ErrNotExist) { // the only error that means "nothing witnessed yet"
+			w.cur[0] = "-"
+		}
 		return nil, err
 	}
 	w.cur[0] = hx(b)
@@ -180,6 +193,11 @@ func scenarioFeeder(t *traceWriter, rng *rand.Rand) {
 			}
 		}
 	}
+	// the real witness's storage read fails under the adapter (a failed read is not "nothing witnessed yet")
+	for _, p := range []string{"r", "rr", "rg", "ur", "rrr"} {
+		cases = append(cases, fcase{3, 8, false, p, true, 0, false}, fcase{9, 5, false, p, true, 0, false},
+			fcase{-1, 5, false, p, true, 0, false}, fcase{6, 6, false, p, true, 0, false}, fcase{4, 7, true, p, true, 0, false})
+	}
 	cases = append(cases, fcase{3, 8, false, "", false, 1, false}, fcase{3, 8, false, "", true, 2, false},
 		fcase{3, 8, false, "ggggggggggggggggggggg", false, 0, true}, fcase{9, 5, false, "", true, 0, false})
 	for _, c := range cases {
@@ -195,8 +213,15 @@ func scenarioFeeder(t *traceWriter, rng *rand.Rand) {
 			defer func() { <-sem }()
 			origin := fmt.Sprintf("feeder.example/%d", n)
 			l := &logDef{origin: origin, key: key}
+			var ctl *lspCtl
 			mu.Lock()
-			s := newSession(t, "mem", []*logDef{l}, wkeys)
+			var s *session
+			if c.realW {
+				ctl = &lspCtl{fail: map[string]bool{}}
+				s = newSessionWith(t, "mem", []*logDef{l}, wkeys, &wrapLSP{inner: inmemory.NewPersistence(), ctl: ctl, tid: func() int { return 0 }}, nil)
+			} else {
+				s = newSession(t, "mem", []*logDef{l}, wkeys)
+			}
 			mu.Unlock()
 			br := tr
 			if c.forked {
@@ -218,6 +243,7 @@ func scenarioFeeder(t *traceWriter, rng *rand.Rand) {
 			sw := &scriptedWitness{script: c.pattern, latest: latest, logID: l.id, fetched: fetched, br: br, cur: [3]string{"_", "_", "_"}}
 			if c.realW {
 				sw.real = omniwitness.VerifNewAdapter(s.w)
+				sw.ctl = ctl
 			} else {
 				sw.ret = []byte("stub-witness-answer\n")
 			}
